@@ -90,6 +90,11 @@ func runXProbe(c *hx.Ctx) {
 			sc{"post-trailers-announced", mkReq("POST", "/p", [][2]string{{"trailer", "x-t1, x-t2"}}, "body", false, tr, true), mkResp("200", [][2]string{{"trailer", "x-t1, x-t2"}}, "resp", false, tr, true)},
 			sc{"post-trailers-unannounced", mkReq("POST", "/p", nil, "body", false, tr, true), mkResp("200", nil, "resp", false, tr, true)},
 			sc{"post-trailers-emptybody", mkReq("POST", "/p", [][2]string{{"trailer", "x-t1, x-t2"}}, "", false, tr, true), mkResp("200", nil, "", false, tr, true)},
+			sc{"announced-not-sent", mkReq("POST", "/p", [][2]string{{"trailer", "x-t1"}}, "body", false, nil, false), mkResp("200", [][2]string{{"trailer", "x-t1"}}, "resp", false, nil, false)},
+			sc{"empty-trailer-block", mkReq("POST", "/p", nil, "body", false, nil, true), mkResp("200", nil, "resp", false, nil, true)},
+			sc{"path-chars", mkReq("GET", "/a{b}|c\"d^e`f[g]h<i>?q={x}|y", nil, "", true, nil, false), mkResp("200", [][2]string{{"set-cookie", "a=1"}, {"set-cookie", "a=2"}}, "", true, nil, false)},
+			sc{"path-emptyquery", mkReq("GET", "/a?", nil, "", true, nil, false), mkResp("200", nil, "", false, nil, false)},
+			sc{"path-dots", mkReq("GET", "/a/../b/./c//d", nil, "", true, nil, false), mkResp("200", nil, "x", false, nil, false)},
 			sc{"head", mkReq("HEAD", "/h", nil, "", true, nil, false), mkResp("200", [][2]string{{"content-length", "5"}}, "", true, nil, false)},
 			sc{"304", mkReq("GET", "/h", nil, "", true, nil, false), mkResp("304", [][2]string{{"etag", "\"x\""}}, "", true, nil, false)},
 			sc{"interim", mkReq("GET", "/h", nil, "", true, nil, false), mkResp("200", nil, "fin", false, nil, false, 103)},
